@@ -1,6 +1,9 @@
 """
 C06 — Row grouping and uniqueness primitives are exact.
 """
+import numpy as rnp
+
+from contracts import common
 from pyvc.engine import contract, bounded
 from pyvc import core
 
@@ -363,3 +366,116 @@ _BOUNDED = {
 }
 for _n, (_cid, _dom) in _BOUNDED.items():
     bounded("C06", name="real-code:" + _n, note="contract text evaluated on the really imported trimesh")(_enum(_cid, _dom))
+
+
+# ----------------------------------------------------------------------------- blocks / boolean_rows against brute force
+
+
+def _circular_runs(data, min_len, max_len, wrap, only_nonzero):
+    """reference: maximal runs of equal values as sorted index tuples (circular when wrap)"""
+    n = len(data)
+    if n == 0:
+        return []
+    runs = []
+    start = 0
+    for i in range(1, n + 1):
+        if i == n or data[i] != data[start]:
+            runs.append(list(range(start, i)))
+            start = i
+    if wrap and len(runs) > 1 and data[0] == data[-1]:
+        runs[0] = runs[-1] + runs[0]
+        runs.pop()
+    out = []
+    for r in runs:
+        if only_nonzero and not data[r[0]]:
+            continue
+        if len(r) < min_len or (max_len is not None and len(r) > max_len):
+            continue
+        out.append(tuple(r))
+    return sorted(out)
+
+
+@bounded("C06", name="real-code:blocks-vs-circular-runs", note="grouping.blocks against a brute-force scan of (circular) runs: every array over {0,1,2} up to length 7 x min_len 1..3 x max_len none/3 x wrap x only_nonzero; constant arrays only without wrap")
+def blocks_exhaustive(tier, seed):
+    import itertools
+
+    from trimesh import grouping
+
+    cells = {}
+    cases = 0
+
+    def fail(key, detail=""):
+        c = cells.setdefault(key, {"what": key, "cell": key, "detail": str(detail)[:200], "count": 0})
+        c["count"] += 1
+
+    top = 7 if tier == "quick" else 9
+    for n in range(1, top + 1):
+        for data in itertools.product((0, 1, 2), repeat=n):
+            const = len(set(data)) == 1
+            for min_len, max_len, wrap, nz in itertools.product((1, 2, 3), (None, 3), (False, True), (False, True)):
+                if wrap and const:
+                    continue  # a constant ring has no run boundary: not defined by the docstring
+                cases += 1
+                try:
+                    got = sorted(tuple(int(i) for i in b) for b in grouping.blocks(rnp.array(data), min_len=min_len, max_len=max_len if max_len is not None else rnp.inf, wrap=wrap, only_nonzero=nz))
+                    want = _circular_runs(list(data), min_len, max_len, wrap, nz)
+                    if sorted(map(sorted, got)) != sorted(map(sorted, want)):
+                        fail("blocks[wrap=%s,only_nonzero=%s]:differs-from-the-circular-runs" % (wrap, nz), "data %s min_len %s max_len %s: %s, want %s" % (list(data), min_len, max_len, got, want))
+                    elif wrap and any(list(g) != list(w) for g, w in zip(sorted(got, key=sorted), sorted(want, key=sorted))):
+                        fail("blocks[wrap=True]:wrapped-block-not-in-ring-order", "data %s: %s want %s" % (list(data), got, want))
+                except Exception as ex:  # noqa: BLE001
+                    fail("blocks:raised %s" % type(ex).__name__, "data %s min_len %s max_len %s wrap %s nz %s: %s" % (list(data), min_len, max_len, wrap, nz, ex))
+    fails = sorted(cells.values(), key=lambda c: c["cell"])
+    r = common.result(cases, cases, fails, "all arrays over {0,1,2} up to length %d x 24 option sets" % top, exhaustive=True)
+    r["failures"] = fails
+    return r
+
+
+@bounded("C06", name="real-code:boolean_rows-vs-set-operations", note="grouping.boolean_rows (intersect1d / setdiff1d) against Python set operations on row tuples: int64 / int32 / int16 / uint8 / list operands in every combination, values incl. 2^31, 2^32 + k, negative numbers against unsigned arrays")
+def boolean_rows_sets(tier, seed):
+    import itertools
+
+    from trimesh import grouping
+
+    cells = {}
+    cases = 0
+
+    def fail(key, detail=""):
+        c = cells.setdefault(key, {"what": key, "cell": key, "detail": str(detail)[:200], "count": 0})
+        c["count"] += 1
+
+    rng = rnp.random.default_rng(seed + 66)
+    small = [[2, 3], [5, 1], [0, 0], [7, 7], [2, 3 + 0]]
+    wide = [[2**32 + 2, 3], [2**31, 1], [5, 1], [-254, 0], [2**16 + 7, 7], [2**8 + 5, 1], [0, 0]]
+    operands = {
+        "int64": lambda rows: rnp.array(rows, dtype=rnp.int64),
+        "int32": lambda rows: rnp.array(rows, dtype=rnp.int32),
+        "int16": lambda rows: rnp.array(rows, dtype=rnp.int16),
+        "uint8": lambda rows: rnp.array(rows, dtype=rnp.uint8),
+        "list": lambda rows: [list(r) for r in rows],
+    }
+    for (na, mka), (nb, mkb) in itertools.product(operands.items(), repeat=2):
+        for rows_a, rows_b in ((small, small[:3]), (small, wide), (wide, small)):
+            # an operand must be representable in its own dtype: only the OTHER one may be wider
+            def fits(rows, name):
+                if name in ("int64", "list"):
+                    return True
+                info = rnp.iinfo(name)
+                return all(info.min <= x <= info.max for r in rows for x in r)
+
+            if not fits(rows_a, na) or not fits(rows_b, nb):
+                continue
+            for opname, op in (("intersect1d", rnp.intersect1d), ("setdiff1d", rnp.setdiff1d)):
+                cases += 1
+                try:
+                    got = grouping.boolean_rows(mka(rows_a), mkb(rows_b), operation=op)
+                    sa, sb = {tuple(r) for r in rows_a}, {tuple(r) for r in rows_b}
+                    want = sorted(sa & sb) if opname == "intersect1d" else sorted(sa - sb)
+                    if sorted(tuple(int(x) for x in r) for r in rnp.asarray(got).reshape(-1, 2)) != want:
+                        fail("boolean_rows[%s]:differs-from-the-set-operation[a:%s,b:%s]" % (opname, na, nb), "got %s want %s" % (rnp.asarray(got).tolist(), want))
+                except Exception as ex:  # noqa: BLE001
+                    fail("boolean_rows[%s]:raised %s[a:%s,b:%s]" % (opname, type(ex).__name__, na, nb), ex)
+    fails = sorted(cells.values(), key=lambda c: c["cell"])
+    r = common.result(cases, cases, fails, "5 x 5 operand types x 3 row sets x 2 operations", exhaustive=True)
+    r["failures"] = fails
+    return r
